@@ -1094,25 +1094,14 @@ func c10R1(c *Ctx) {
 		if isTestFile(p.Fset, fn.Pos()) || fn.Parent() != nil {
 			continue
 		}
-		// handlers: take *gin.Context and read the token key
-		var get *ssa.Call
-		allInstrs(fn, func(i ssa.Instruction) {
-			if cl, ok := i.(*ssa.Call); ok && strings.HasSuffix(commonName(&cl.Call), "gin.Context).Get") {
-				if k, ok := constString(cl.Call.Args[1]); ok && k == key {
-					get = cl
-				}
-			}
-		})
-		if get == nil {
-			continue
-		}
+		// handlers: take *gin.Context and make a routing call (below)
 		isHandler := false
 		for _, pa := range fn.Params {
 			if strings.Contains(pa.Type().String(), "gin.Context") {
 				isHandler = true
 			}
 		}
-		if !isHandler {
+		if !isHandler || !strings.Contains(fn.String(), modPath+"/server/") {
 			continue
 		}
 		// the routed endpoint value E: argument of EndpointPermitted calls (direct or via helper) — and of routing calls
